@@ -511,6 +511,41 @@ m("external-purity-only-for-constants", ["C04"], ["PURITY-UNIFY|outer_statement|
   "                if let Type::Function(args, ret, Purity::Undefined) = self.find_type(ty) {\n                    self.find_node_mut(ty).ty = Type::Function(args, ret, Purity::Impure);",
   "                if let (true, Type::Function(args, ret, Purity::Undefined)) =\n                    (self.variables[*var].kind.immutable(), self.find_type(ty))\n                {\n                    self.find_node_mut(ty).ty = Type::Function(args, ret, Purity::Impure);")
 
+# ---- rounds 11 and 12
+m("tokenizer-text-trimmed", ["C15", "C17"], ["LINE|sylt_parser::tree|tokenizer-gets-the-text-as-read#1"], PPA,
+  "        let tokens = string_to_tokens(file_id, &source);", "        let tokens = string_to_tokens(file_id, source.trim_start());")
+m("conflict-marker-searched-in-line", ["C14"], ["COMMENT|raw-text-scan|looks-at-line-starts-only"], PPA,
+  "        if line.starts_with(conflict_marker) {", "        if line.contains(conflict_marker) {")
+m("output-written-when-changed", ["C20"], ["ATOMIC|output-always-written"], LIB,
+  "            File::create(s)\n                .map_err(|e| vec![Error::IOError(Rc::new(e))])?\n                .write_all(&buf)\n                .map_err(|e| vec![Error::IOError(Rc::new(e))])?;",
+  "            if std::fs::read(s).map_or(true, |old| old != buf) {\n                File::create(s)\n                    .map_err(|e| vec![Error::IOError(Rc::new(e))])?\n                    .write_all(&buf)\n                    .map_err(|e| vec![Error::IOError(Rc::new(e))])?;\n            }")
+m("int-callback-unwraps", ["C07"], ["CENSUS|token-callback|Int|hands-failure-to-the-lexer"], TOKT,
+  "#[regex(r\"[0-9]+\", |lex| lex.slice().parse())]", "#[regex(r\"[0-9]+\", |lex| lex.slice().parse::<i64>().unwrap())]")
+m("tuple-div-zero-special", ["C19"], ["ARITH|tuple|__div|no-component-is-special"], PRE,
+  "        for x = 1, #a, 1 do\n            out[x] = a[x] / b[x]\n        end",
+  "        for x = 1, #a, 1 do\n            if b[x] == 0 then out[x] = 0 else out[x] = a[x] / b[x] end\n        end")
+m("lone-slash-guard-dead", ["C07"], ["CENSUS|unwrap-premise|statement::statement|lone-slash-is-rejected-first"], PST,
+  "                    if path == \"/\" {\n                        raise_syntax_error!(ctx, \"Using root requires alias\");",
+  "                    if path.is_empty() {\n                        raise_syntax_error!(ctx, \"Using root requires alias\");")
+m("missing-module-ends-the-visit", ["C20"], ["EXIT|tree|no-file-ends-the-visit"], PPA,
+  "                Err(err) => {\n                    errors.push(err);\n                    continue;\n                }",
+  "                Err(err) => return Err(vec![err]),")
+m("dict-from-list-own-store", ["C18"], ["KEY-NORM|dict_from_list|stores-through-the-primitives"], PRE,
+  "        dict_update(out, e[1], e[2])\n", "        out[tostring(e[1])] = __TUPLE {e[1], e[2]}\n")
+m("open-purity-walk-skips-parameters", ["C04", "C08"], ["PURITY-COPY|has_open_purity|purity-walk|Function|all-components"], TC,
+  "                Type::Function(args, ret, _) => {\n                    todo.extend(args);\n                    todo.push(ret);\n                }",
+  "                Type::Function(_, ret, _) => todo.push(ret),")
+m("open-purity-walk-stops-at-enums", ["C04"], ["PURITY-COPY|has_open_purity|purity-walk|reaches-every-component"], TC,
+  "                Type::ExternBlob(_, _, fields, args, _)\n                | Type::Blob(_, _, fields, args)\n                | Type::Enum(_, _, fields, args) => {\n                    todo.extend(fields.values().map(|(_, ty)| *ty));\n                    todo.extend(args);\n                }\n                _ => {}\n            }\n        }\n        false",
+  "                _ => {}\n            }\n        }\n        false")
+m("open-purity-refused-in-pure", ["C08"], ["ANNOTATION-PERMISSIVE|TypeChecker::expression|call|open-purity-is-settled-like-an-unknown-callee"], TC,
+  "                        if ctx.inside_pure && matches!(purity, Purity::Undefined) {", "                        if false && matches!(purity, Purity::Undefined) {")
+m("trailing-if-not-returned", ["C14"], ["IMPLICIT-RET|every-trailing-expression"], IR,
+  "                    Some(S::StatementExpression { value, .. }) => {\n                        let (ir, ret) = self.expression(&value, ctx);\n                        [ir, vec![IR::Return(ret)]].concat()",
+  "                    Some(S::StatementExpression { value, .. }) if !matches!(value, E::If { .. }) => {\n                        let (ir, ret) = self.expression(&value, ctx);\n                        [ir, vec![IR::Return(ret)]].concat()")
+m("type-cycle-members-filtered", ["C20"], ["EXIT|Compiler::compile|one-error-per-cycle-member"], COMP,
+  "                statements.iter().for_each(|statement| {", "                statements.iter().filter(|s| !matches!(s, Statement::Blob { .. })).for_each(|statement| {")
+
 for w in W:
     with open(os.path.join(OUT, w["name"] + ".json"), "w") as fh:
         json.dump(w, fh, indent=1)
